@@ -385,6 +385,7 @@ func runC15(c *Ctx) {
 		g := c.Fn("(*dht.IpfsDHT).handleGetProviders")
 		c.Check(K(g.Name, "filters served addresses"), g.Pos(), len(g.CallsDeep("(*dht.IpfsDHT).filterAddrs")) >= 1, "provider addresses served to the network pass the address filter", "no filterAddrs call")
 		// advertisement: FilteredAddrs (C06.R3)
+		c06FilteredAddrs(c)
 		for _, s := range p.AllCalls("(github.com/libp2p/go-libp2p/core/host.Host).Addrs") {
 			if eng.Short(s.F.Pkg.PkgPath) != "dht" {
 				continue
